@@ -53,3 +53,53 @@ Proof.
     as (st' & E & _ & _ & _ & _ & _ & _ & _ & _ & _ & C).
   exists st'. split; assumption.
 Qed.
+
+(* ---- the multi-round sentence (Model/Multiround.v, Proofs/MrCoarsen.v) ----
+   [round_lists d r] = the member lists stored in the index files of round r of the output
+   directory d (cleanup off, so every round is still visible). *)
+From BB Require Import Model.Multiround Proofs.MrCoarsen.
+From Coq Require Import String.
+Open Scope string_scope.
+
+(* fingerprints grouped together by one round are inside one group of the next round — unless
+   splitting after midsection rounds is on and their cluster is the one a task exploded, in which
+   case ALL of its members are singletons of the next round; and every group of the last round is
+   inside one final cluster *)
+Theorem C09_multiround_coarsens : forall fexp nf (files : list (list fpv)) (c : mr_cfg),
+  Z.of_nat nf < 2 ^ 52 ->
+  Forall (Forall (fun fp : fpv => List.length fp = nf)) files ->
+  zlen (List.concat files) < 2 ^ 64 ->
+  2 <= m_bf c -> (1 <= m_bin c)%nat ->
+  forall d, m_cleanup c = false -> run_multiround fexp c files [] = Some d ->
+  let rl := 1 + Z.of_nat (m_rounds c) in
+  (forall r, 1 <= r < rl -> forall l, In l (round_lists d r) ->
+     (exists l', In l' (round_lists d (r + 1)) /\ incl l l') \/
+     (m_split_after c = true /\ forall i, In i l -> In [i] (round_lists d (r + 1)))) /\
+  (exists cl, dir_get d "clusters.pkl" = Some (CClusters cl) /\
+     forall l, In l (round_lists d rl) -> exists k, In k cl /\ incl l k).
+Proof. exact multiround_coarsens. Qed.
+
+(* without deliberate splitting: together in ANY round implies together in the final clusters *)
+Theorem C09_multiround_stay_together : forall fexp nf (files : list (list fpv)) (c : mr_cfg),
+  Z.of_nat nf < 2 ^ 52 ->
+  Forall (Forall (fun fp : fpv => List.length fp = nf)) files ->
+  zlen (List.concat files) < 2 ^ 64 ->
+  2 <= m_bf c -> (1 <= m_bin c)%nat ->
+  forall d, m_cleanup c = false -> m_split_after c = false ->
+  run_multiround fexp c files [] = Some d ->
+  exists cl, dir_get d "clusters.pkl" = Some (CClusters cl) /\
+    forall r l, 1 <= r <= 1 + Z.of_nat (m_rounds c) -> In l (round_lists d r) ->
+      (exists k, In k cl /\ incl l k) /\ forall i j, In i l -> In j l -> together cl i j.
+Proof. exact multiround_stay_together. Qed.
+
+(* [round_lists] is what the index files of that round hold *)
+Theorem C09_round_lists_are_files : forall fexp nf (files : list (list fpv)) (c : mr_cfg),
+  Z.of_nat nf < 2 ^ 52 ->
+  Forall (Forall (fun fp : fpv => List.length fp = nf)) files ->
+  zlen (List.concat files) < 2 ^ 64 ->
+  2 <= m_bf c -> (1 <= m_bin c)%nat ->
+  forall d, m_cleanup c = false -> run_multiround fexp c files [] = Some d ->
+  forall r, 1 <= r <= 1 + Z.of_nat (m_rounds c) -> forall l,
+  (In l (round_lists d r) <->
+   exists n ids, is_idxs_of r n = true /\ dir_get d n = Some (CIdxs ids) /\ In l ids).
+Proof. exact round_lists_glob. Qed.
